@@ -103,6 +103,9 @@ func runCase(c Case, st *Stats) *ev.Failure {
 	}
 	mode := collector.DecodingMode(c.Mode)
 	col := glue.NewCol(c.Proto, mode, clk, ttl)
+	if mode == "" { // not configured: strict is the documented default
+		mode = collector.DecodingModeStrict
+	}
 	model := map[glue.TplKey][]ref.Field{}
 	replaced := map[glue.TplKey]bool{}
 	invalidated := map[glue.TplKey]bool{}
@@ -430,7 +433,7 @@ func TestC04(t *testing.T) {
 
 func genCase(t *rapid.T) Case {
 	c := Case{
-		Mode:  rapid.SampledFrom([]string{"Strict", "LenientKeepUnknown", "LenientDropUnknown"}).Draw(t, "mode"),
+		Mode:  rapid.SampledFrom([]string{"Strict", "LenientKeepUnknown", "LenientDropUnknown", ""}).Draw(t, "mode"),
 		Proto: rapid.SampledFrom([]string{"tcp", "udp"}).Draw(t, "proto"),
 	}
 	if c.Proto == "tcp" {
